@@ -77,6 +77,7 @@ RULES = {
     "C19.scope": "no name resolving to a Python builtin is subscripted or used as data",
     "C19.postcond": "_parse_config_params: the sum and length checks raise ConfigError and dominate the return; phases go through _parse_phase per element into a tuple",
     "C19.defaults-all-paths": "a statement that gives an optional key its default (d[k] = d.get(k, default) / setdefault) dominates every return of its function",
+    "C19.phase-kinds": "_parse_phase returns a MineralPhase member or raises the configuration error for every kind of TOML value (name, ordinal, member, unknown name, out-of-range ordinal, float, list)",
     "C19.output-kept": "defaults computed for the [output] table are stored in the returned configuration even when the table is omitted",
 }
 
@@ -173,11 +174,12 @@ def config(ctx, I):
         scope(ctx, mod, name, fn)
     for name, fn in fns.items():
         defaults_all_paths(ctx, mod, name, fn)
+    phase_kinds(ctx, I)
     kinds(ctx, mod, fns, I, param_fields)
     postcond(ctx, mod, fns)
     output_kept(ctx, mod, fns)
     ctx.floor("C19.key-defined", 10)
-    ctx.floor("C19.handler", 4)
+    ctx.floor("C19.handler", 2)
     ctx.floor("C19.scope", 6)
     ctx.floor("C19.defaults-all-paths", 5)
 
@@ -268,6 +270,36 @@ def defaults_all_paths(ctx, mod, fname, fn):
             missing = [r for r in rets if not cfg.dominates(n, r, idom)]
             ctx.ob("C19.defaults-all-paths", f"{fname}:{t.value.id}[{key}]", not missing,
                    f"the default of optional key {key!r} is not applied on the path to the return at line(s) {[getattr(cfg.stmt[r], 'lineno', '?') for r in missing]}", L(ctx, mod, s))
+
+
+def phase_kinds(ctx, I):
+    from ..interp import RaiseSig
+    from ..alg import lift
+    dotted = "pydrex.io._parse_phase"
+    try:
+        ctx.program.require(dotted)
+    except Exception:
+        return
+    loc = defloc(ctx, dotted)
+    f = I.resolve(dotted)
+    cls = I.resolve("pydrex.core.MineralPhase")
+    good = [("name:" + n, n, m) for n, m in cls.members.items()] + [("ordinal:%d" % m.value, m.value, m) for m in cls.members.values()] \
+        + [("member:" + n, m, m) for n, m in cls.members.items()]
+    bad = [("unknown name", "peridotite"), ("ordinal 7", 7), ("ordinal -1", -1), ("float", lift(0.5)), ("list", ["olivine"]), ("bool-like None", None)]
+    for tag, arg, want in good:
+        try:
+            got = I.call(f, (arg,))
+            ok = isinstance(got, EnumMember) and got.cls is cls and got.name == want.name
+            ctx.ob("C19.phase-kinds", tag, ok, f"returned {got!r} of kind {kind_of(got)} (must be the MineralPhase member {want!r})", loc)
+        except RaiseSig as r:
+            ctx.ob("C19.phase-kinds", tag, False, f"valid phase rejected with {r.exc.typename}", loc)
+    for tag, arg in bad:
+        try:
+            got = I.call(f, (arg,))
+            ctx.ob("C19.phase-kinds", tag, False, f"invalid phase accepted, returned {got!r}", loc)
+        except RaiseSig as r:
+            ctx.ob("C19.phase-kinds", tag, r.exc.typename == "ConfigError", f"raised {r.exc.typename}", loc)
+    ctx.floor("C19.phase-kinds", 10)
 
 
 def flow_exits(body):
